@@ -3,7 +3,7 @@
 name=$1; pid=$2; tier=${3:-quick}
 cd /verif || exit 2
 [ -z "$(git -C /repo status --porcelain --untracked-files=no)" ] || { echo "/repo not clean"; exit 2; }
-git -C /repo apply seeded/$name/patch.diff || exit 2
+git -C /repo apply /verif/seeded/$name/patch.diff || exit 2
 ./tools/check $pid --tier $tier > out/seed_$name.$pid.log 2>&1; rc=$?
 git -C /repo checkout -- .
 nv=$(grep -c '^VIOLATION' out/seed_$name.$pid.log)
